@@ -39,7 +39,7 @@ LoopText(v) ==
         second == ValZ \o Placed(q)
     IN KwLoop \o <<LF>> \o TagT \o <<LF>> \o TagU \o <<LF>> \o first \o second
 
-Same(a, b) == Strip(a) = Strip(b)
+Same(a, b) == Strip(NormalizeBreaks(a)) = Strip(NormalizeBreaks(b))
 
 (* (i-a) every representable string has a quoting that the lexer maps back to it *)
 PairRoundTrip ==
@@ -75,14 +75,14 @@ NoValueHasLfSemi ==
 Candidates(v) == { <<SEMI>> \o v \o <<LF, SEMI>>, <<SEMI, SP>> \o v \o <<LF, SEMI>>,
                    <<SQ>> \o v \o <<SQ>>, <<DQ>> \o v \o <<DQ>>, v }
 NotRepresentableIsLost ==
-    HasLfSemi(Strip(s)) =>
+    HasLfSemi(Strip(NormalizeBreaks(s))) =>
       \A c \in Candidates(s) :
          LET r == Lex(TagT \o <<LF>> \o c \o <<LF>> \o TagU \o <<SP>> \o ValZ \o <<LF>>) IN
          ~( r.e = "" /\ Len(r.t) = 4 /\ r.t[2].k = "val" /\ Same(r.t[2].s, s) )
 
 (* (ii) comment text never becomes a token, whatever it contains *)
 CommentsAreNotTokens ==
-    LET r == Lex(CommentLines(s) \o TagT \o <<SP>> \o ValZ \o <<LF>>) IN
+    LET r == Lex(CommentLinesAnyBreak(s) \o TagT \o <<SP>> \o ValZ \o <<LF>>) IN
     /\ r.e = ""
     /\ r.t = << [k |-> "tag", s |-> <<116>>], [k |-> "val", s |-> ValZ] >>
 
